@@ -275,7 +275,7 @@ class CHECK(Check):
                         for target in (1, 2, 3):
                             for size in (0, 2):
                                 n += 1
-                                if tier == "quick" and (n + ti) % 29 != 0:
+                                if tier == "quick" and (n + ti) % 41 != 0:
                                     continue
                                 cl = mk(tk, ["v1", "v2"])
                                 which = cl[1][1] if slot < 0 else cl[1][2][slot][1]
@@ -317,7 +317,7 @@ class CHECK(Check):
             return {"error": "framework base class modified"}
         out = {"trace": trace}
         if case["fam"] == "register":
-            content = "".join("V%d; x\n" % x for x in sorted(set([1, 2, 3, 4, 5] + [x for v in objs for x in components(v, sizes.get(v, 1))])))
+            content = "".join("V%d; x\n" % x for x in sorted(set(list(objs) + [x for v in objs for x in components(v, sizes.get(v, 1))])))
             reads = []
             for k in classes[1:]:
                 f = k.read(content)
@@ -344,10 +344,11 @@ class CHECK(Check):
     entry = "C19seq"
 
     def model_obs(self, case, res):
-        tr = [[x[0] if x else None for x in step] for step in res]
-        out = {"trace": tr}
+        sizes = size_map(case)
+        ids = [[x[0] if x else None for x in step] for step in res]
+        out = {"trace": [[rep(v, sizes) for v in step] for step in ids]}
         if case["fam"] == "register":
-            out["reads"] = [[v] for v in tr[-1][1:]]
+            out["reads"] = [components(v, sizes.get(v, 1)) for v in ids[-1][1:]]
         return out
 
     def oracle(self, case, obs):
@@ -355,6 +356,7 @@ class CHECK(Check):
             return "exception or framework class modified: %s" % (obs,)
         cl = case["classes"]
         own = [a for _, a, _ in cl]
+        sizes = size_map(case)
 
         def resolve(i, what):
             while True:
@@ -376,16 +378,18 @@ class CHECK(Check):
             le = [k for k in tab if k <= v]
             if le:
                 own[c] = tab[max(le)]
-            exp_c = resolve(c, "a")
+            exp_c = rep(resolve(c, "a"), sizes)
             if got[c] != exp_c:
                 return "selected class: active list %r, expected %r (table keys %r, request %r)" % (got[c], exp_c, list(tab), v)
             for i in range(len(cl)):
-                if not descends(i, c) and got[i] != before[i]:
+                if not descends(i, c) and got[i] != rep(before[i], sizes):
                     return "selection on class %d changed class %d (parent or sibling)" % (c, i)
         if "reads" in obs:
-            final = obs["trace"][-1]
+            # the file holds one line per component, in increasing component index: the lines recognised are those of the
+            # components of the active list
             for i, typed in enumerate(obs["reads"]):
-                if typed != [final[i + 1]]:
+                act = resolve(i + 1, "a")
+                if typed != components(act, sizes.get(act, 1)):
                     return "File.read does not use the selected component list"
         return None
 
@@ -402,6 +406,10 @@ class CHECK(Check):
         d["lists_all_separate_objects" if not kinds else "lists_shared_objects"] = 1
         for k in kinds:
             d["shared_" + k] = 1
+        ns = sorted(set(n for _, n in case.get("sizes") or []))
+        d["lists_all_of_one_component" if not ns else "lists_of_other_sizes"] = 1
+        for n in ns:
+            d["declares_list_of_%d_components" % n] = 1
         return d
 
     def signature(self, case, why):
@@ -425,6 +433,11 @@ class CHECK(Check):
                 c["classes"] = copy.deepcopy(case["classes"])
                 put_slot(c["classes"], s, fresh)
                 yield c
+        # give a list that has no or several components one component again
+        for j in range(len(case.get("sizes") or [])):
+            c = dict(case)
+            c["sizes"] = case["sizes"][:j] + case["sizes"][j + 1:]
+            yield c
         # drop a declared version
         for i, (_, _, tab) in enumerate(case["classes"]):
             for j in range(len(tab or [])):
